@@ -383,14 +383,25 @@ def generate() -> str:
         if path not in trees:
             trees[path] = parse(path)
         tree, src = trees[path]
-        fn = find_function(tree, pyname)
-        tr = FuncTr(fn, src)
+        # fail-closed per definition: a function the translator cannot express is left out (with the reason), so
+        # that exactly the proofs that depend on it stop checking - not the whole generated file
+        try:
+            fn = find_function(tree, pyname)
+            tr = FuncTr(fn, src)
+            text = tr.translate(coqname)
+        except Unsupported as err:
+            out.append("(* NOT TRANSLATED %s (%s:%s): %s *)" % (coqname, path, pyname, str(err).replace("*)", "* )")))
+            SKIPPED.append("%s: %s" % (coqname, err))
+            continue
         out.append("(* %s:%d %s *)" % (path, fn.lineno, pyname))
-        out.append(tr.translate(coqname))
+        out.append(text)
         asserts += [(path, ln) for ln in tr.asserts]
     import facts
-    out.append(facts.generate(trees, parse))
+    out.append(facts.generate(trees, parse, SKIPPED))
     return "\n".join(out)
+
+
+SKIPPED = []
 
 
 def main():
@@ -414,6 +425,8 @@ def main():
         print("py2coq: wrote %s" % dest)
     else:
         print("py2coq: %s up to date" % dest)
+    if SKIPPED:
+        print("py2coq: NOT TRANSLATED (the proofs that use them will not check): " + "; ".join(SKIPPED))
     return 0
 
 
